@@ -47,6 +47,35 @@ def canary_fn(*a, **k):
     return 'called'
 class Plain:
     pass
+class Probe:
+    # every protocol method an innocent-looking use (a message, a comparison, a truth test, a membership test) would run
+    __hash__ = object.__hash__
+    def __repr__(self):
+        bump('Probe.__repr__'); return '<probe>'
+    def __str__(self):
+        bump('Probe.__str__'); return 'probe'
+    def __format__(self, spec):
+        bump('Probe.__format__'); return 'probe'
+    def __eq__(self, other):
+        bump('Probe.__eq__'); return self is other
+    def __ne__(self, other):
+        bump('Probe.__ne__'); return self is not other
+    def __lt__(self, other):
+        bump('Probe.__lt__'); return False
+    def __bool__(self):
+        bump('Probe.__bool__'); return True
+    def __len__(self):
+        bump('Probe.__len__'); return 1
+    def __iter__(self):
+        bump('Probe.__iter__'); return iter(())
+    def __getitem__(self, k):
+        bump('Probe.__getitem__'); raise KeyError(k)
+    def __contains__(self, k):
+        bump('Probe.__contains__'); return False
+class UnhashableProbe(Probe):
+    __hash__ = None
+PROBE = Probe()
+UNHASHABLE = UnhashableProbe()
 instance = object.__new__(Canary)
 VALUE = 42
 ITER = iter([10, 20, 30])
